@@ -3166,3 +3166,131 @@ func E4NextToleranceRecorded(c *core.Ctx, r *core.Report) {
 	r.Count("E4.next-tolerance-recorded", n)
 	r.Floor("E4.next-tolerance-recorded", 1)
 }
+
+// E4UnboundedQuotientNotMultiplied: a quotient by (count − 1) is not used as a factor.
+func E4UnboundedQuotientNotMultiplied(c *core.Ctx, r *core.Report) {
+	r.Rule("E4.unbounded-quotient-not-multiplied", "RichText.ToText spreads extra height over the gaps between lines: `step := extra / float64(len(lines)-1)`. With a single line the divisor is zero and the quotient is ±Inf or NaN; that is harmless as long as the quotient is only ever added to a running offset that the single line does not receive. Every local defined by a division whose divisor is `len(X) − k` (k ≥ 1), and not computed under a test that len(X) exceeds k, is therefore never an operand of a multiplication: `float64(j) * step` is 0·Inf = NaN for the only line, whose position, bounds and heights all become NaN")
+	p := c.MustPkg("")
+	info := p.TypesInfo
+	n := 0
+	for _, fd := range core.AllFuncDecls(p) {
+		if fd.Body == nil || strings.HasSuffix(c.Fset.Position(fd.Pos()).Filename, "_test.go") {
+			continue
+		}
+		// quotients by len(X)-k
+		type quot struct {
+			v    types.Object
+			arr  string
+			k    int64
+			pos  token.Pos
+			safe bool
+		}
+		var qs []quot
+		var stack []ast.Node
+		ast.Inspect(fd.Body, func(m ast.Node) bool {
+			if m == nil {
+				stack = stack[:len(stack)-1]
+				return true
+			}
+			stack = append(stack, m)
+			as, ok := m.(*ast.AssignStmt)
+			if !ok || len(as.Lhs) != 1 || len(as.Rhs) != 1 {
+				return true
+			}
+			lid, ok := as.Lhs[0].(*ast.Ident)
+			be, ok2 := core.Unparen(as.Rhs[0]).(*ast.BinaryExpr)
+			if !ok || !ok2 || be.Op != token.QUO {
+				return true
+			}
+			// divisor: float64(len(X)-k) or len(X)-k
+			div := core.Unparen(be.Y)
+			if call, ok := div.(*ast.CallExpr); ok && len(call.Args) == 1 {
+				if tv, isT := info.Types[call.Fun]; isT && tv.IsType() {
+					div = core.Unparen(call.Args[0])
+				}
+			}
+			sub, ok := div.(*ast.BinaryExpr)
+			if !ok || sub.Op != token.SUB {
+				return true
+			}
+			lc, ok := core.Unparen(sub.X).(*ast.CallExpr)
+			if !ok || len(lc.Args) != 1 {
+				return true
+			}
+			if fn, ok := core.Unparen(lc.Fun).(*ast.Ident); !ok || fn.Name != "len" {
+				return true
+			}
+			k, ok := core.ConstInt(info, sub.Y)
+			if !ok || k < 1 {
+				return true
+			}
+			arr := types.ExprString(lc.Args[0])
+			// guarded by len(arr) > k (canonical: k < len(arr)) on the way here?
+			safe := false
+			for i := len(stack) - 2; i >= 0; i-- {
+				is, ok := stack[i].(*ast.IfStmt)
+				if !ok || !(is.Body.Pos() <= as.Pos() && as.Pos() < is.Body.End()) {
+					continue
+				}
+				ast.Inspect(is.Cond, func(q ast.Node) bool {
+					cb, ok := q.(*ast.BinaryExpr)
+					if !ok {
+						return true
+					}
+					lenSide := func(e ast.Expr) bool {
+						call, ok := core.Unparen(e).(*ast.CallExpr)
+						return ok && len(call.Args) == 1 && types.ExprString(call.Fun) == "len" && types.ExprString(call.Args[0]) == arr
+					}
+					if cb.Op == token.LSS && lenSide(cb.Y) {
+						if v, ok := core.ConstInt(info, cb.X); ok && v >= k {
+							safe = true
+						}
+					}
+					if cb.Op == token.LEQ && lenSide(cb.Y) {
+						if v, ok := core.ConstInt(info, cb.X); ok && v > k {
+							safe = true
+						}
+					}
+					return true
+				})
+			}
+			qs = append(qs, quot{core.ObjOf(info, lid), arr, k, as.Pos(), safe})
+			return true
+		})
+		for i, q := range qs {
+			n++
+			key := fmt.Sprintf("canvas.%s|quotient by len(%s)-%d #%d", core.FuncName(fd), q.arr, q.k, i+1)
+			if q.safe {
+				r.OK("E4.unbounded-quotient-not-multiplied", key, c.Pos(q.pos), "computed under a test of the length")
+				continue
+			}
+			var bad ast.Node
+			ast.Inspect(fd.Body, func(m ast.Node) bool {
+				switch x := m.(type) {
+				case *ast.BinaryExpr:
+					if x.Op == token.MUL {
+						for _, side := range []ast.Expr{x.X, x.Y} {
+							if id, ok := core.Unparen(side).(*ast.Ident); ok && core.ObjOf(info, id) == q.v && bad == nil {
+								bad = x
+							}
+						}
+					}
+				case *ast.AssignStmt:
+					if x.Tok == token.MUL_ASSIGN && len(x.Rhs) == 1 {
+						if id, ok := core.Unparen(x.Rhs[0]).(*ast.Ident); ok && core.ObjOf(info, id) == q.v && bad == nil {
+							bad = x
+						}
+					}
+				}
+				return true
+			})
+			if bad == nil {
+				r.OK("E4.unbounded-quotient-not-multiplied", key, c.Pos(q.pos), "only added")
+			} else {
+				r.Fail("E4.unbounded-quotient-not-multiplied", key, c.Pos(bad.Pos()), fmt.Sprintf("`%s` multiplies `%s`, which was computed by dividing by len(%s)-%d without a test that the length exceeds %d: for exactly %d element(s) it is ±Inf or NaN and the product with a zero factor is NaN — the only line of a vertically justified text gets y = NaN, and with it Bounds, Heights and every renderer", c.Src(bad), q.v.Name(), q.arr, q.k, q.k, q.k))
+			}
+		}
+	}
+	r.Count("E4.unbounded-quotient-not-multiplied", n)
+	r.Floor("E4.unbounded-quotient-not-multiplied", 1)
+}
